@@ -213,6 +213,30 @@ def build_harness():
         return exe, hsh, None
 
 
+def ensure_fstree():
+    """the fixed tree the `fs` scenario family serves (document root = fstree/parent/root)"""
+    base = os.path.join(ROOT, ".work", "fstree")
+    marker = os.path.join(base, ".complete-v2")
+    if os.path.exists(marker):
+        return base
+    shutil.rmtree(base, ignore_errors=True)
+    def put(rel, size, seed):
+        p = os.path.join(base, rel)
+        os.makedirs(os.path.dirname(p), exist_ok=True)
+        open(p, "wb").write(bytes((i * 7 + seed) % 251 for i in range(size)))
+    put("parent/secret.txt", 23, 1)
+    put("parent/rootx/s.txt", 19, 2)
+    put("parent/root/in.txt", 40, 3)
+    put("parent/root/sub/deep.txt", 31, 4)
+    put("parent/root/sub/.hidden", 9, 5)
+    put("parent/root/a&b<c>.txt", 12, 6)
+    put("parent/root/big.bin", 70000, 7)
+    put("parent/root/empty.txt", 0, 8)
+    put("parent/root/edge.bin", 65536, 9)
+    open(marker, "w").write("ok")
+    return base
+
+
 DRIVER = os.path.join(LEAN, ".lake", "build", "bin", "qhttp-driver")
 HENV = dict(os.environ, ASAN_OPTIONS="detect_leaks=0:abort_on_error=0:exitcode=77",
             UBSAN_OPTIONS="print_stacktrace=0:halt_on_error=1", QT_LOGGING_RULES="*=false",
@@ -357,6 +381,7 @@ def main():
         print("CHECK-BROKEN property=%s harness build failed" % prop)
         sys.exit(2)
 
+    ensure_fstree()
     rng = random.Random(seed * 1000003 + sum(map(ord, prop)))
     lines = []
     if a.replay:
